@@ -231,7 +231,15 @@ pub trait ElementMut: Element + NodeMut {
     fn set_attribute_node(&self, new_attr: XmlAttr) -> error::Result<Option<XmlAttr>>;
 
     fn remove_attribute_node(&self, old_attr: XmlAttr) -> error::Result<XmlAttr> {
-        if let Some(attr) = self.get_attribute_node(old_attr.name().as_str()) {
+        // NOT_FOUND_ERR unless `old_attr` itself (not just an attribute of that name) is an
+        // attribute of this element.
+        let attr = self
+            .get_attribute_node(old_attr.name().as_str())
+            .filter(|v| {
+                v.as_node().id() == old_attr.as_node().id()
+                    && XmlDocument::same(&v.owner_document(), &old_attr.owner_document())
+            });
+        if let Some(attr) = attr {
             self.remove_attribute(old_attr.name().as_str())?;
             Ok(attr)
         } else {
